@@ -4,6 +4,7 @@ import (
 	"fmt"
 	"sort"
 	"strings"
+	"sync/atomic"
 	"time"
 
 	mqtt "github.com/mochi-mqtt/server/v2"
@@ -38,6 +39,11 @@ type Sim struct {
 	reported      map[string]map[string]int
 	Store         mqtt.Hook // the storage hook of the current broker instance (if any)
 	Restarts      int
+	PrevSnap      *Snap // model before the step that was executed last
+	CurSnap       *Snap // model after it
+	StoppedAt     int
+	CrashSeq      atomic.Int64 // global sequence number at which the first storage write was lost
+	stepStartSeq  int64
 }
 
 type SimOptions struct {
@@ -52,6 +58,9 @@ type SimOptions struct {
 	StoreOpen  func() (mqtt.Hook, any)   // opens a fresh storage hook on the case's store (start and every restart)
 	WrapStore  func(mqtt.Hook) mqtt.Hook // optional wrapper around the storage hook (crash proxy)
 	AfterRestart func(s *Sim)            // called after a restart has loaded the store, before the history continues
+	Snapshots  bool                      // keep model snapshots before/after the current step (crash-point checks)
+	StopWhen   func() bool               // checked after every step: stop executing the history (crash point reached)
+	Finish     func(s *Sim)              // called by RunCase after the history, before the broker is torn down
 }
 
 func NewSim(cfg *Config, opt SimOptions) *Sim {
@@ -72,6 +81,9 @@ func (s *Sim) makeBroker() *eng.Broker {
 		h, hc := opt.StoreOpen()
 		if opt.WrapStore != nil {
 			h = opt.WrapStore(h)
+			if cp, ok := h.(*CrashProxy); ok {
+				cp.OnCrash = func() { s.CrashSeq.Store(s.B.Seq.Next()) } // position of the crash in the global event order
+			}
 		}
 		s.Store = h
 		extra = append(extra, eng.HookSpec{Hook: h, Config: hc})
@@ -168,16 +180,59 @@ func (sl *Slot) expect(e *Expect) *Expect {
 func (s *Sim) Run(ops []Op) bool {
 	for i := range ops {
 		s.M.Step = i
+		if s.Opt.Snapshots {
+			s.PrevSnap = s.M.Snapshot()
+		}
 		s.Step(&ops[i])
 		if s.Incon != "" {
 			return false
 		}
+		if s.Opt.Snapshots {
+			s.CurSnap = s.M.Snapshot()
+		}
+		if s.Opt.StopWhen != nil && s.Opt.StopWhen() {
+			s.StoppedAt = i
+			return true
+		}
 	}
+	s.StoppedAt = len(ops)
 	return true
+}
+
+// Snap is the persistent part of the model at a step boundary.
+type Snap struct {
+	Sessions map[string]SessSnap
+	Retained map[string]string // topic -> message id
+}
+
+type SessSnap struct {
+	Persistent bool
+	Connected  bool
+	Subs       map[string]bool
+	Out        map[string]bool // message ids owed (unacknowledged QoS>0)
+}
+
+func (m *Model) Snapshot() *Snap {
+	sn := &Snap{Sessions: map[string]SessSnap{}, Retained: map[string]string{}}
+	for id, t := range m.Sessions {
+		ss := SessSnap{Persistent: t.persistent(), Connected: t.Slot != nil, Subs: map[string]bool{}, Out: map[string]bool{}}
+		for f := range t.Subs {
+			ss.Subs[f] = true
+		}
+		for _, o := range t.Out {
+			ss.Out[o.M.ID] = true
+		}
+		sn.Sessions[id] = ss
+	}
+	for topic, rm := range m.Retained {
+		sn.Retained[topic] = rm.ID
+	}
+	return sn
 }
 
 func (s *Sim) Step(op *Op) {
 	s.curOp = op
+	s.stepStartSeq = s.B.Seq.Now()
 	s.tr("#%d %s c=%d %s", s.M.Step, op.Kind, op.C, opBrief(op))
 	if op.Kind != "connect" && op.Kind != "tick" && op.C < len(s.Slots) && !s.Slots[op.C].connected && !isGlobalOp(op.Kind) {
 		s.M.count("skipped_ops_not_connected")
